@@ -226,6 +226,9 @@ pub fn observe(ops: &[Op]) -> String {
                 }
             }
             Op::IterMut => {
+                // only the FIRST item is taken (and dropped): what is borrowed further down the table does not matter (C17/C08)
+                let first = catch_unwind(AssertUnwindSafe(|| table.iter_mut(world).next().map(|o| o.tag())));
+                let first_s = match first { Ok(Some(t)) => t.to_string(), Ok(None) => "-".into(), Err(p) => panic_kind(&p).into() };
                 let r = catch_unwind(AssertUnwindSafe(|| {
                     // streaming use: every yielded object is used at once; the guards stay alive until the end
                     let mut keep = Vec::new();
@@ -247,9 +250,9 @@ pub fn observe(ops: &[Op]) -> String {
                             let l = |v: &[u64]| if v.is_empty() { "-".to_string() } else { v.iter().map(|t| t.to_string()).collect::<Vec<_>>().join(".") };
                             format!("#n1={}#s1={}", f(n1), l(&s1))
                         }));
-                        format!("{}{}", list_str(&l), extra.unwrap_or_else(|_| "#panic".into()))
+                        format!("{}{}#f={}", list_str(&l), extra.unwrap_or_else(|_| "#panic".into()), first_s)
                     }
-                    Err(p) => panic_kind(&p).into(),
+                    Err(p) => format!("{}#f={}", panic_kind(&p), first_s),
                 }
             }
             Op::Hold(k, excl) => {
